@@ -257,7 +257,19 @@ inline int harness_main(int argc, char **argv, const char *name, CaseFn fn) {
     bool leakRestart = false; long endedAt = a.to;
     std::map<std::string, long> obs, gens, gensNt, incReasons, vioKeys;
     std::map<std::string, double> obsmax;
-    long emitted = 0;
+    long emitted = 0; long segFrom = a.from;
+    // full summaries are flushed every 256 cases (and the counters reset) so that a later crash of this process loses at most the
+    // observation counters of the current segment; the driver adds all summaries up
+    auto writeSummary = [&](long from, long to, bool partial) {
+        JObj s;
+        s.str("t", "summary").str("mode", a.mode).i("from", from).i("to", to).b("partial", partial).i("evaluations", evaluations).i("held", held)
+            .i("violated", violated).i("inconclusive", inconclusive).i("nontrivial", nontrivial).i("c15", c15n);
+        auto dump = [](const std::map<std::string, long> &m) { JObj o; for (auto &kv : m) o.i(kv.first, kv.second); return o.done(); };
+        s.raw("obs", dump(obs)).raw("gens", dump(gens)).raw("gens_nt", dump(gensNt)).raw("inconclusive_reasons", dump(incReasons)).raw("violation_keys", dump(vioKeys));
+        { JObj o; for (auto &kv : obsmax) o.num(kv.first, kv.second); s.raw("obsmax", o.done()); }
+        std::string line = s.done() + "\n";
+        write_all(g_outfd, line.data(), line.size());
+    };
     for (long idx = a.from; idx < a.to; idx++) {
         g_curcase = idx;
         { char b[32]; int n = snprintf(b, sizeof b, "%-20ld\n", idx); if (pwrite(g_progfd, b, (size_t)n, 0) < 0) {} }
@@ -341,17 +353,15 @@ inline int harness_main(int argc, char **argv, const char *name, CaseFn fn) {
             emitted++;
         }
         if (leakRestart) { endedAt = idx + 1; break; }
+        if ((idx - a.from + 1) % 256 == 0 && idx + 1 < a.to) {
+            g_curcase = -1; fflush(dig); writeSummary(segFrom, idx + 1, true); segFrom = idx + 1;
+            evaluations = held = violated = inconclusive = nontrivial = c15n = 0; obs.clear(); gens.clear(); gensNt.clear(); incReasons.clear(); vioKeys.clear(); obsmax.clear();
+            for (int q = 0; q < 6; q++) g_cnt[q] = 0;
+        }
     }
     g_curcase = -1;
     fclose(dig);
-    JObj s;
-    s.str("t", "summary").str("mode", a.mode).i("from", a.from).i("to", leakRestart ? endedAt : a.to).b("partial", leakRestart).i("evaluations", evaluations).i("held", held)
-        .i("violated", violated).i("inconclusive", inconclusive).i("nontrivial", nontrivial).i("c15", c15n);
-    auto dump = [](const std::map<std::string, long> &m) { JObj o; for (auto &kv : m) o.i(kv.first, kv.second); return o.done(); };
-    s.raw("obs", dump(obs)).raw("gens", dump(gens)).raw("gens_nt", dump(gensNt)).raw("inconclusive_reasons", dump(incReasons)).raw("violation_keys", dump(vioKeys));
-    { JObj o; for (auto &kv : obsmax) o.num(kv.first, kv.second); s.raw("obsmax", o.done()); }
-    std::string line = s.done() + "\n";
-    write_all(g_outfd, line.data(), line.size());
+    writeSummary(segFrom, leakRestart ? endedAt : a.to, leakRestart);
     close(g_outfd);
     close(g_progfd);
     if (leakRestart) { fflush(nullptr); _exit(25); }   // skip the end-of-process leak check: it would repeat the report
